@@ -32,6 +32,9 @@ func c04Setups() []c04setup {
 		{"clock-100", "position fen " + kClock100},
 		{"fortress", "position fen " + kFortress},
 		{"fortress-moves", "position fen " + kFortress + " moves h1g1 a8b8"},
+		// draws the board records while moves are played and that are NOT claims: the position still has legal moves
+		{"insufficient-after-capture", "position fen 8/8/8/3k4/8/3n4/3K4/8 w - - 0 60 moves d2d3"},
+		{"fivefold", "position fen " + kFortress + " moves h1g1 a8b8 g1h1 b8a8 h1g1 a8b8 g1h1 b8a8 h1g1 a8b8 g1h1 b8a8 h1g1 a8b8 g1h1 b8a8"},
 	}
 }
 
@@ -76,6 +79,12 @@ func c04Scripts(tier string) []uciParams {
 				if e.name != "plain" && st.name == "fortress-moves" && tier != "thorough" {
 					continue
 				}
+				if strings.Contains(strings.Join(g, " "), "@other") && st.name != "kvk" && st.name != "kvk-black" && tier != "thorough" {
+					continue // quick: the two-position scripts on the K v K set-ups only
+				}
+				if (st.name == "insufficient-after-capture" || st.name == "fivefold") && tier != "thorough" && e.name != "plain" && ei != 1 {
+					continue // quick: the plain engine and one bundled engine
+				}
 				script := append([]string{}, e.opts...)
 				script = append(script, st.line)
 				for _, l := range g {
@@ -111,7 +120,7 @@ func c04Scripts(tier string) []uciParams {
 func init() {
 	Defs["C04"] = &Def{
 		ID:   "C04",
-		Rule: "engine (plain alpha-beta + the four bundled engines, constructed by code LIFTED from cmd/*/main.go at check time) x options (Hash 0/1, Noise, OwnBook on/off, flags) x set-up (K v K both colours, checkmated, stalemated, claimable three-fold via moves, half-move clock 100, fortress with and without moves, start position with book) x go variant (depth 1/2, bare, movetime, wtime/btime(+movestogo), infinite->stop, depth->stop, go;await;go, go;await;go infinite;stop, go;stop;await;other position;go;await). The GUI awaits each bestmove; `stop` is released (a) as a lazy thread at ANY scheduling point for one deviation, timers likewise, and (b) at scheduler step k for a grid of k over the whole unstopped run, timers likewise, each engine goroutine in turn held back for 80 steps after the stop (slow-thread dimension); all schedules within the deviation bound. Oracle per execution: every go answered by exactly one bestmove (a GUI parked forever on await = missing answer), the move is reference-legal in the position last set up, 0000 iff that position has no legal move. distinct_nontrivial = distinct event-log classes",
+		Rule: "engine (plain alpha-beta + the four bundled engines, constructed by code LIFTED from cmd/*/main.go at check time) x options (Hash 0/1, Noise, OwnBook on/off, flags) x set-up (K v K both colours, checkmated, stalemated, claimable three-fold via moves, five-fold via moves, bare kings after a capture played in the moves list, half-move clock 100, fortress with and without moves, start position with book) x go variant (depth 1/2, bare, movetime, wtime/btime(+movestogo), infinite->stop, depth->stop, go;await;go, go;await;go infinite;stop, go;stop;await;other position;go;await). The GUI awaits each bestmove; `stop` is released (a) as a lazy thread at ANY scheduling point for one deviation, timers likewise, and (b) at scheduler step k for a grid of k over the whole unstopped run, timers likewise, each engine goroutine in turn held back for 80 steps after the stop (slow-thread dimension); all schedules within the deviation bound. Oracle per execution: every go answered by exactly one bestmove (a GUI parked forever on await = missing answer), the move is reference-legal in the position last set up, 0000 iff that position has no legal move. distinct_nontrivial = distinct event-log classes",
 		Gen: func(tier string) []explore.Scenario {
 			var out []explore.Scenario
 			for _, p := range c04Scripts(tier) {
@@ -133,9 +142,9 @@ func init() {
 					continue
 				}
 				l := measure(p)
-				stride := 24
+				stride := 30
 				if tier == "thorough" {
-					stride = 8
+					stride = 12
 				}
 				max := l
 				if max > 320 {
